@@ -277,15 +277,19 @@ class Check:
         self.cov['distinct_nontrivial'] = len(self.distinct)
         for kid, (k, n) in sorted(self.known_hits.items()):
             print('KNOWN-FINDING: property=%s %s [%s, %d occurrence(s)]' % (self.pid, k['what'], kid, n))
-        paths = []
-        for i, (ident, what, payload) in enumerate(self.violations[:20]):
-            h = hashlib.sha1(json.dumps(ident, sort_keys=True, default=str).encode()).hexdigest()[:12]
+        groups = {}
+        for ident, what, payload in self.violations:
+            k = json.dumps(ident, sort_keys=True, default=str)
+            groups.setdefault(k, []).append((ident, what, payload))
+        for k, items in list(groups.items())[:40]:
+            ident, what, payload = items[0]
+            h = hashlib.sha1(k.encode()).hexdigest()[:12]
             d = '%s/replays/%s/%s' % (V, self.pid, h)
             os.makedirs(d, exist_ok=True)
-            json.dump({'property': self.pid, 'ident': ident, 'what': what, 'payload': payload,
+            json.dump({'property': self.pid, 'ident': ident, 'what': what, 'payload': payload, 'occurrences': len(items),
                        'seed': seed(), 'tier': self.tier}, open(d + '/replay.json', 'w'), indent=1, default=str)
-            paths.append(d)
-            print('VIOLATION property=%s replay=%s  # %s' % (self.pid, d, what))
+            print('VIOLATION property=%s replay=%s  # [%dx] %s' % (self.pid, d, len(items), what[:400]))
+        self.cov['violation_groups'] = len(groups)
         ev = {'property_id': self.pid, 'tier': self.tier, 'seed': seed(), 'level': self.level,
               'coverage': self.cov, 'assumptions': self.assumptions, 'wall_s': round(wall, 1),
               'violations': len(self.violations),
@@ -295,6 +299,21 @@ class Check:
         log('%s %s: %d violation(s), %d known-finding id(s) hit, %.1fs' % (
             self.pid, self.tier, len(self.violations), len(self.known_hits), wall))
         return 1 if self.violations else 0
+
+
+def judge(chk, wdir, name, module, cfg, infile_name, infile_path, verdict_name, timeout=1800, nrecs=None, java_opts=None):
+    """Run a TLA+ monitor spec (module/cfg) over a recorded NDJSON file; return its verdict dict.
+    The spec walks the records as a state machine and JsonSerializes [n, bad] when done."""
+    d = '%s/%s' % (wdir, name)
+    r = tlc(d, module, cfg, files={infile_name: infile_path}, workers=1, timeout=timeout, java_opts=java_opts)
+    vp = d + '/' + verdict_name
+    if not os.path.exists(vp):
+        raise Inconclusive('%s produced no verdict:\n%s' % (module, r.out[-3000:]))
+    chk.add_tlc(module + ' ' + name, r)
+    v = json.load(open(vp))
+    if nrecs is not None and v.get('n') != nrecs:
+        raise Inconclusive('%s consumed %s of %s records' % (module, v.get('n'), nrecs))
+    return v
 
 
 TRUSTED = ['compat layer (DESIGN.md App. A): base v0.0.9 + bigmachine v0.5.8 add-only patches, go 1.18 lang, exec/config.go stub',
